@@ -71,6 +71,11 @@ func (s *Server) Shutdown(ctx context.Context) error {
 
 func (s *Server) proxyRoute(c *gin.Context) {
 	s.proxy.ServeHTTP(c.Writer, c.Request)
+
+	// Write the response header now, otherwise as this is the 'no route'
+	// handler, an upstream 404 response without a body is overwritten with
+	// the routers own not found response.
+	c.Writer.WriteHeaderNow()
 }
 
 func (s *Server) panicRoute(c *gin.Context, err any) {
